@@ -354,9 +354,12 @@ func (c *Context) Quo(d, x, y *Decimal) (Condition, error) {
 			half := rem.Cmp(&divisor)
 			if c.Rounding.ShouldAddOne(&d.Coeff, d.Negative, half) {
 				d.Coeff.Add(&d.Coeff, bigOne)
-				// The coefficient changed, so recompute num digits in
-				// setExponent.
-				nd = unknownNumDigits
+				if NumDigits(&d.Coeff) > nd {
+					// 99..9 rolled over to 100..0: drop the extra digit so that
+					// the result keeps c.Precision digits.
+					d.Coeff.Quo(&d.Coeff, bigTen)
+					adjExp10--
+				}
 			}
 		}
 	}
